@@ -1163,7 +1163,7 @@ theorem unlinkWo_getInfo_ne (s : SState) (i : Nat) {j : Nat} (hj : j ≠ i) :
   unfold unlinkWo; split
   · rfl
   · dsimp only; split
-    · refine Eq.trans (getInfo_eq_of _ (withInfo s i _) j ?_) ?_
+    · refine Eq.trans (getInfo_eq_of _ (withInfo s i (fun x => { x with wo := none })) j ?_) ?_
       · rfl
       · rw [getInfo_withInfo, if_neg hij]
     · rw [getInfo_congr (fail_infos _ _), getInfo_withInfo, if_neg hij]
@@ -1196,7 +1196,8 @@ theorem handleRemove_exact {s : SState} (h : Safe s) (ve : VE) {n : AoNode} (hn 
   have hBi : ∀ j, getInfo B j =
       if ve.info = j then { getInfo s ve.info with admitted := false } else getInfo s j := by
     intro j; rw [← hB]
-    refine Eq.trans (getInfo_eq_of _ (withInfo s ve.info _) j ?_) ?_
+    refine Eq.trans
+      (getInfo_eq_of _ (withInfo s ve.info (fun i => { i with admitted := false })) j ?_) ?_
     · rfl
     · exact getInfo_withInfo _ _ _ _
   have h1 : (getInfo B ve.info).ao = some n.id := by rw [hBi, if_pos rfl]; exact hao
@@ -1209,7 +1210,7 @@ theorem handleRemove_exact {s : SState} (h : Safe s) (ve : VE) {n : AoNode} (hn 
   · intro j hj
     have hij : ¬ ve.info = j := fun e => hj e.symm
     rw [unlinkWo_getInfo_ne _ _ hj]
-    refine Eq.trans (getInfo_eq_of _ (withInfo B ve.info _) j ?_) ?_
+    refine Eq.trans (getInfo_eq_of _ (withInfo B ve.info (fun x => { x with ao := none })) j ?_) ?_
     · rfl
     · rw [getInfo_withInfo, if_neg hij, hBi, if_neg hij]
 
